@@ -104,7 +104,7 @@ PROPS["C14"] = {
     "assumptions": ["what a coroutine handler sees when it eventually runs is not part of the contract; Read handlers are modelled by their effect (refresh) only"],
 }
 PROPS["C15"] = {
-    "suites": [("comp_cli", "gen_c15"), ("comp_xml", "gen_transport")],
+    "suites": [("comp_cli", "gen_c15"), ("comp_xml", "gen_transport"), ("comp_sys", "gen_c08_burst"), ("comp_sys", "gen_c01_reannounce")],
     "rule": "random streams of def*/set*/delProperty/message/ping/getProperties/new*/enableBLOB over 3 device x 3 property x 4 element names and all five kinds (redefinition, partial "
             "updates, kind mismatches, unknown targets, empty and absent BLOB payloads, duplicate children, whole-device deletion; 5% ill-formed BLOB children as a separate stream); "
             "distinct by message list",
@@ -155,7 +155,7 @@ PROPS["C03"] = {
     "assumptions": ["carriage return and leading/trailing whitespace of text values are excluded (the property's own exclusions)"],
 }
 PROPS["C01"] = {
-    "suites": [("comp_sys", "gen_c01"), ("comp_sys", "gen_c01_lag"), ("comp_sys", "gen_c01_burst"), ("comp_num", "gen_history")],
+    "suites": [("comp_sys", "gen_c01"), ("comp_sys", "gen_c01_lag"), ("comp_sys", "gen_c01_burst"), ("comp_sys", "gen_c01_reannounce"), ("comp_num", "gen_history")],
     "rule": "whole deployments in one process: 1-3 generated drivers (1-3 groups, all five vector kinds, all switch rules, printf and sexagesimal formats, initially enabled/disabled groups "
             "and vectors, one driver optionally built through an inheritance chain of depth 2-3) + real Router + real server TCP handlers + fragmenting byte pipes (1024 / 1 byte / random) + "
             "real client handlers + Client (control + BLOB connection) and in-process SnoopingClients; random histories of driver operations (assign, set_value, state, enabling of "
